@@ -178,7 +178,7 @@ def gen_cell(rng, gamma, vol, dxs, mode, zero_delta):
     sym = lambda: 2 * rng.uniform() - 1
     rho, P = dec(-2, 2), dec(-2, 2)
     if mode == "vac":
-        rho = rng.choice([0.0, 1e-300, dec(-30, -10), rho])
+        rho = rng.choice([0.0, 1e-300, dec(-30, -10), rho, 5e-324, 1e-310, 3e-309])     # incl. subnormal densities: 1/rho overflows
         P = rng.choice([0.0, dec(-30, -10), P])
     a = math.sqrt(gamma * P / rho) if rho > 0 else 1.0
     if not math.isfinite(a):
@@ -332,6 +332,38 @@ def cells_tie(ck, d, n, okm):
                              key={"kind": "pair", "op": c["k"]})
     stats["oracle_fail"] = bad
     return stats, sig
+
+
+def predict_finite(ck, d):
+    """'states stay physical ... including near vacuum': the half-step prediction of the primitive variables (real
+    Hydro::predict_primitive_variables through the cell-operations harness) of a cell with an extremely small (also subnormal)
+    density and vanishing gradients must leave the cell finite: 1/rho overflows there and inf * 0 is NaN"""
+    rng = ck.rng
+    cases = []
+    for k in range(60):
+        gamma = [5 / 3, 1.4, 2.0, 1.001][k % 4]
+        dxs = [10.0 ** (2 * rng.uniform() - 1) for _ in range(3)]
+        vol = dxs[0] * dxs[1] * dxs[2]
+        c = gen_cell(rng, gamma, vol, dxs, "vac", True)
+        c[0] = [5e-324, 1e-310, 3e-309, 5.5e-309, 1e-300, 0.0][k % 6]
+        c[5] = c[0] * vol
+        for j in range(15, 30):
+            c[j] = 0.0
+        cells = [c, list(c)]
+        dt = 10.0 ** (-3 + 4 * rng.uniform())
+        cases.append((k, "2 %s %s ; " % (hx(gamma), hx(1e99)) + " ; ".join(" ".join(hx(x) for x in cc) for cc in cells) + " ; P 0 %s" % hx(dt), c[0]))
+    rc, out = vf.run_lines([os.path.join(d, "cellops")], "\n".join(l for _, l, _ in cases) + "\n", timeout=300)
+    if rc != 0 or len(out) != len(cases):
+        ck.breaks.append("cell-operations harness failed on the near-vacuum prediction cases (rc=%d, %d of %d lines)" % (rc, len(out), len(cases)))
+        return 0
+    for (k, line, rho), o in zip(cases, out):
+        f = o.split()
+        vals = [bd(x) for x in f[:5]]
+        if not all(math.isfinite(v) for v in vals):
+            ck.violation("C04 fails on the real Hydro::predict_primitive_variables: a cell of density %r with vanishing gradients has the primitive variables %r after the half-step prediction "
+                         "(non-finite values then reach the fluxes of all its faces)" % (rho, vals), {"kind": "pair", "case": {"line": line}, "impl_out": o}, key={"kind": "predict_near_vacuum"})
+            break
+    return len(cases)
 
 
 # ---------------------------------------------------------------------------------------------------------------
@@ -518,6 +550,7 @@ def run(ck):
     # (2)
     if ok.get("cells"):
         st, s2 = cells_tie(ck, d, 4000 if ck.quick else 60000, ok.get("model"))
+        cov["near_vacuum_prediction_cases"] = predict_finite(ck, d)
         cov["cells"] = st
         sig |= s2
     # (3)
